@@ -25,7 +25,10 @@ Definition r_ce_loss_row : R -> list R -> nat -> R := g_ce_loss_row Rplus Rminus
 Definition r_ce_gradient : list R -> nat -> list R := g_ce_gradient Rplus Rminus Rdiv 0 1 exp.
 Definition r_bce_loss_row : R -> list R -> nat -> R := g_bce_loss_row Rplus Rminus Rdiv 0 1 exp ln Rltb.
 Definition r_bce_gradient : list R -> nat -> list R := g_bce_gradient Rplus Rminus Rdiv 0 1 exp INR.
-Definition r_bce_gradient_onehot : list R -> nat -> list R := g_bce_gradient_onehot Rplus Rminus Rdiv 0 1 exp.
+Definition r_bce_gradient_legacy : list R -> nat -> list R := g_bce_gradient_legacy Rplus Rminus Rdiv 0 1 exp INR.
+(** sigmoid(x) - one_hot(y): what the multi-channel branch of the coded gradient computes. *)
+Definition r_bce_gradient_onehot (x : list R) (y : nat) : list R :=
+  g_ce_gradient_o Rminus 0 1 (map (g_sigmoid Rplus Rminus Rdiv 0 1 exp) x) y.
 Definition r_mean_loss : (list R -> nat -> R) -> list (list R) -> list nat -> R := g_mean_loss Rplus Rdiv 0 INR.
 
 (** [l] with its k-th element replaced by [v] (perturbation of one coordinate). *)
@@ -455,7 +458,7 @@ Proof.
   apply (is_derive_ext (fun t => T k (cl t) + C)); [intros t; symmetry; apply Hshape|].
   (* coded one-hot component *)
   assert (nth k (r_bce_gradient_onehot x y) 0 = r_sigmoid xk - (if Nat.eqb k y then 1 else 0)) as Hg.
-  { unfold r_bce_gradient_onehot, g_bce_gradient_onehot, g_ce_gradient_o.
+  { unfold r_bce_gradient_onehot, g_ce_gradient_o.
     change (g_sigmoid Rplus Rminus Rdiv 0 1 exp) with r_sigmoid.
     rewrite (nth_map2 Rminus _ _ _ 0 0 0);
       [| rewrite map_length; exact Hk | unfold g_onehot; rewrite !map_length, seq_length; exact Hk].
@@ -484,32 +487,64 @@ Proof.
       * replace (0 + - xk) with (0 - xk) by ring. pose proof (exp_pos (0 - xk)) as He. field. lra.
 Qed.
 
-(** D18. With several channels the coded gradient [(probs.T - labels).T] subtracts the label VALUE from
-    every channel; this is not the derivative of the coded loss: at signal (0, 0) with label 1 the
-    derivative in channel 0 is sigmoid(0) = 1/2, the coded value is 1/2 - 1. *)
-Theorem bce_grad_multi_refuted (eps : R) :
+Lemma bce_gradient_multi_is_onehot (x : list R) (y : nat) :
+  (2 <= length x)%nat -> r_bce_gradient x y = r_bce_gradient_onehot x y.
+Proof.
+  intros H. unfold r_bce_gradient, r_bce_gradient_onehot, g_bce_gradient, g_bce_gradient_o.
+  destruct x as [|a [|b t]]; cbn [length] in H; try lia. reflexivity.
+Qed.
+
+(** One sample, several channels: the coded gradient is the derivative of the coded loss. *)
+Theorem bce_multi_row_derive (eps : R) (x : list R) (y k : nat) :
+  (2 <= length x)%nat -> (k < length x)%nat -> (y < length x)%nat ->
+  eps < r_sigmoid (nth k x 0) < 1 - eps ->
+  is_derive (fun t => r_bce_loss_row eps (upd x k t) y) (nth k x 0) (nth k (r_bce_gradient x y) 0).
+Proof.
+  intros H2 Hk Hy Hin. rewrite bce_gradient_multi_is_onehot by exact H2.
+  apply bce_multi_onehot_derive; assumption.
+Qed.
+
+(** BinaryCrossEntropy.loss_gradient = n * d(mean loss)/d(signal) with SEVERAL output channels
+    (the code after repo commit 018b4674), away from the clipping threshold. *)
+Theorem bce_grad_multi (eps : R) (S : list (list R)) (labels : list nat) (i k : nat) :
+  length labels = length S -> (i < length S)%nat ->
+  (2 <= length (nth i S []))%nat -> (k < length (nth i S []))%nat ->
+  (nth i labels 0%nat < length (nth i S []))%nat ->
+  eps < r_sigmoid (nth k (nth i S []) 0) < 1 - eps ->
+  is_derive (fun t => r_mean_loss (r_bce_loss_row eps) (upd S i (upd (nth i S []) k t)) labels)
+            (nth k (nth i S []) 0)
+            (nth k (r_bce_gradient (nth i S []) (nth i labels 0%nat)) 0 / INR (length labels)).
+Proof.
+  intros Hl Hi H2 Hk Hy Hin. apply mean_loss_derive; try assumption.
+  apply bce_multi_row_derive; assumption.
+Qed.
+
+(** Legacy D18 (before 018b4674). With several channels the old gradient [(probs.T - labels).T] subtracted the
+    label VALUE from every channel; this is not the derivative of the coded loss: at signal (0, 0) with label 1
+    the derivative in channel 0 is sigmoid(0) = 1/2, the old value was 1/2 - 1. *)
+Theorem bce_grad_multi_legacy_refuted (eps : R) :
   0 < eps < 1 / 2 ->
   exists (x : list R) (y k : nat),
     (2 <= length x)%nat /\ (k < length x)%nat /\ (y < length x)%nat /\
-    nth k (r_bce_gradient x y) 0 <> nth k (r_bce_gradient_onehot x y) 0 /\
-    ~ is_derive (fun t => r_bce_loss_row eps (upd x k t) y) (nth k x 0) (nth k (r_bce_gradient x y) 0).
+    nth k (r_bce_gradient_legacy x y) 0 <> nth k (r_bce_gradient x y) 0 /\
+    ~ is_derive (fun t => r_bce_loss_row eps (upd x k t) y) (nth k x 0) (nth k (r_bce_gradient_legacy x y) 0).
 Proof.
   intros Heps. exists [0; 0], 1%nat, 0%nat.
   assert (r_sigmoid 0 = 1 / 2) as Hs.
   { unfold r_sigmoid, g_sigmoid. replace (0 - 0) with 0 by ring. rewrite exp_0. lra. }
-  assert (nth 0 (r_bce_gradient [0; 0] 1) 0 = - (1 / 2)) as Hcoded.
-  { unfold r_bce_gradient, g_bce_gradient, g_bce_gradient_o. cbn [map nth INR].
+  assert (nth 0 (r_bce_gradient_legacy [0; 0] 1) 0 = - (1 / 2)) as Hcoded.
+  { unfold r_bce_gradient_legacy, g_bce_gradient_legacy, g_bce_gradient_legacy_o. cbn [map nth INR].
     change (g_sigmoid Rplus Rminus Rdiv 0 1 exp 0) with (r_sigmoid 0). rewrite Hs. lra. }
-  assert (nth 0 (r_bce_gradient_onehot [0; 0] 1) 0 = 1 / 2) as Hfix.
-  { unfold r_bce_gradient_onehot, g_bce_gradient_onehot, g_ce_gradient_o, g_onehot.
+  assert (nth 0 (r_bce_gradient [0; 0] 1) 0 = 1 / 2) as Hfix.
+  { unfold r_bce_gradient, g_bce_gradient, g_bce_gradient_o, g_ce_gradient_o, g_onehot.
     cbn [map map2 nth length seq Nat.eqb].
     change (g_sigmoid Rplus Rminus Rdiv 0 1 exp 0) with (r_sigmoid 0). rewrite Hs. lra. }
   cbn [length]. split; [lia|]. split; [lia|]. split; [lia|]. split.
   - rewrite Hcoded, Hfix. lra.
   - intros Hbad.
     assert (is_derive (fun t => r_bce_loss_row eps (upd [0; 0] 0 t) 1) (nth 0 [0; 0] 0)
-                      (nth 0 (r_bce_gradient_onehot [0; 0] 1) 0)) as Hgood.
-    { apply bce_multi_onehot_derive; cbn [length nth]; try lia. rewrite Hs. lra. }
+                      (nth 0 (r_bce_gradient [0; 0] 1) 0)) as Hgood.
+    { apply bce_multi_row_derive; cbn [length nth]; try lia. rewrite Hs. lra. }
     apply is_derive_unique in Hbad. apply is_derive_unique in Hgood.
     rewrite Hbad in Hgood. rewrite Hcoded, Hfix in Hgood. lra.
 Qed.
